@@ -14,7 +14,7 @@ func main() {
 			"and its emit trace/results/error compared in Coq with the reference evaluator; non-trivial = at least 5 emitted rows or an error outcome; distinct by Gallina term",
 		Modes:     []luaprop.Mode{{Name: "core", Features: luagen.CoreFeatures(), Weight: 5}, {Name: "core-bigk", Features: bigk(luagen.CoreFeatures()), Weight: 1}},
 		NQuick:    400,
-		NThorough: 6000,
+		NThorough: 2500,
 		Corpus:    corpus,
 		VM:        true,
 	})
